@@ -1,27 +1,27 @@
 #!/bin/bash
-# confirm_seed.sh <ID> [n]: in the scratch worktree /tmp/mut/<ID> (change + demo applied by the sub-agent) confirm that
-#  the whole suite passes with the change except the demo, and the demo passes without the change. Copies the seed to /verif/seeded/<ID>-<n>/.
+# confirm_seed.sh <ID> [n]: in the sub-agent's scratch worktree /tmp/mut/<ID> (change + demo applied) confirm that
+#  (1) the whole suite passes with the change except the demo, (2) the demo fails with the change, (3) the demo passes with the change reverse-applied.
 ID=$1; N=${2:-1}; W=/tmp/mut/$ID; OUT=/verif/seeded/$ID-$N
 mkdir -p $OUT; cp $W/out/patch.diff $W/out/meta.json $OUT/ 2>/dev/null; cp $W/out/demo.diff $OUT/ 2>/dev/null
-export CARGO_TARGET_DIR=/tmp/mut/target_$ID CARGO_NET_OFFLINE=true
-cd $W
-cargo test --offline --workspace --no-fail-fast > $OUT/suite_with_change.log 2>&1
+export CARGO_NET_OFFLINE=true
+cd $W || exit 2
+DEMO=$(python3 -c "import json;print(json.load(open('$OUT/meta.json')).get('demo_cmd','').replace('&amp;','&'))")
+CARGO_TARGET_DIR=$W/target cargo test --offline --workspace --no-fail-fast > $OUT/suite_with_change.log 2>&1
 WITH_FAILED=$(grep -E "^test [^ ]+ \.\.\. FAILED" $OUT/suite_with_change.log | sort -u | tr '\n' ';')
 WITH_SUMMARY=$(grep -E "^test result" $OUT/suite_with_change.log | tr '\n' ';')
-git apply -R out/patch.diff || echo "REVERSE APPLY FAILED" >> $OUT/suite_with_change.log
-cargo test --offline --workspace --no-fail-fast > $OUT/suite_without_change.log 2>&1
-WITHOUT_FAILED=$(grep -E "^test [^ ]+ \.\.\. FAILED" $OUT/suite_without_change.log | sort -u | tr '\n' ';')
-WITHOUT_SUMMARY=$(grep -E "^test result" $OUT/suite_without_change.log | tr '\n' ';')
+bash -c "$DEMO" > $OUT/demo_with_change.log 2>&1; D1=$?
+git apply -R out/patch.diff || echo "REVERSE APPLY FAILED" >> $OUT/demo_with_change.log
+bash -c "$DEMO" > $OUT/demo_without_change.log 2>&1; D2=$?
 git apply out/patch.diff
-python3 - "$OUT" "$WITH_FAILED" "$WITH_SUMMARY" "$WITHOUT_FAILED" "$WITHOUT_SUMMARY" <<'PY'
+python3 - "$OUT" "$WITH_FAILED" "$WITH_SUMMARY" "$D1" "$D2" <<'PY'
 import json,sys
-out,wf,ws,wof,wos=sys.argv[1:6]
-try: m=json.load(open(out+'/meta.json'))
-except Exception: m={}
-m['confirmed_by_coordinator']={'cmd':'cargo test --offline --workspace --no-fail-fast (scratch worktree, own target dir), with the change and with the change reverse-applied',
-  'failed_tests_with_change':wf,'summary_with_change':ws,'failed_tests_without_change':wof,'summary_without_change':wos,
-  'ok': ('mut_demo' in wf or 'demo' in wf) and wof=='' and all(('mut_demo' in t or 'demo' in t) for t in wf.split(';') if t)}
+out,wf,ws,d1,d2=sys.argv[1:6]
+m=json.load(open(out+'/meta.json'))
+nondemo=[t for t in wf.split(';') if t and 'mut_demo' not in t and 'demo' not in t.lower()]
+m['confirmed_by_coordinator']={'what':'scratch worktree of /repo HEAD with the sub-agent\'s change and demo applied: cargo test --offline --workspace --no-fail-fast; demo_cmd with the change; demo_cmd with patch.diff reverse-applied',
+  'failed_tests_with_change':wf,'summary_with_change':ws,'existing_tests_failing_with_change':nondemo,
+  'demo_exit_with_change':int(d1),'demo_exit_without_change':int(d2),
+  'ok': (not nondemo) and int(d1)!=0 and int(d2)==0}
 json.dump(m,open(out+'/meta.json','w'),indent=1)
-print(out, m['confirmed_by_coordinator']['ok'], wf, '|', wof)
+print(out, m['confirmed_by_coordinator']['ok'], 'demo', d1, d2, 'other failures:', nondemo)
 PY
-rm -rf /tmp/mut/target_$ID
